@@ -347,6 +347,12 @@ func ParseLimeURI(s string) (*URI, error) {
 		return nil, fmt.Errorf("invalid scheme '%v'", u.Scheme)
 	}
 
+	// The text form has to lead back to the same URI: a path that starts with an escaped "//" would be written
+	// unescaped and read as a host
+	if u2, err := url.Parse(u.String()); err != nil || u2.Host != u.Host || u2.Path != u.Path {
+		return nil, fmt.Errorf("invalid uri '%v'", s)
+	}
+
 	return &URI{u}, nil
 }
 
